@@ -147,7 +147,8 @@ CLAIMED = {
             "particle i gets floor(N w_i) or ceil(N w_i) copies (exact integer model of cumsum/searchsorted; proof by counting positions below each cumulative weight); zero weight => no copies; "
             "resample: each output particle is the whole input particle at its index, weights reset, diagnostics = pre-resampling normalised weights, exp(lml) unchanged (field identity in Q). "
             "Unbiasedness (C12_systematic_unbiased_on_grid): over the uniform grid of c*sum(w) offsets the copies of particle i sum to c*N*w_i, for every weight vector, N and resolution c "
-            "(the continuous expectation is the limit of these exact Riemann averages, not itself mechanised); every systematic index names an input particle (C12_systematic_indices_in_range). "
+            "(the continuous expectation is the limit of these exact Riemann averages, not itself mechanised); every systematic index names an input particle (C12_systematic_indices_in_range); over the same grids the sum of any test function over the resampled particles sums to "
+            "c*N*sum_i f(i) w_i (C12_systematic_estimate_on_grid). "
             "Categorical method, modelled as N independent draws with probabilities w_i/W: E[copies_i] = N w_i / W and the resampled equal-weight average of any test function has the expectation of "
             "the weighted average before resampling (C12_categorical_expected_copies, C12_categorical_estimate_preserved; exact finite expectations over Qc).",
             "Trusted: Coq kernel; hand model coq/Model/Resample.v of systematic_resample/resample_vectorized_trace/resample/log_marginal_likelihood over exact integers/rationals; "
